@@ -11,10 +11,10 @@
 //! on the engine only and prints the canonical result.
 use chk_sql::sqlmc::db::{self, Database, Domain};
 use chk_sql::sqlmc::grammar::{self, GenQuery, Tier};
-use chk_sql::sqlmc::reference::{self, RefOutcome};
+use chk_sql::sqlmc::reference;
 use chk_sql::sqlmc::value::{Row, show_rows};
-use chk_sql::sqlmc::{ContextOptions, ast::Query, compare, engine};
-use datafusion::prelude::SessionContext;
+use chk_sql::sqlmc::oracle::{Verdict, check_one};
+use chk_sql::sqlmc::{ContextOptions, ast::Query, engine};
 use mc_core::serde_json::{Value as Json, json};
 use mc_core::{Ctx, Level, rayon::prelude::*, run_check};
 use serde::{Deserialize, Serialize};
@@ -26,94 +26,6 @@ struct Case {
     sql: String,
     ast: Query,
     db: Database,
-}
-
-enum Verdict {
-    /// engine result accepted; `nonempty` = reference window non-empty
-    Match { rows: Vec<Row> },
-    /// reference says the statement may fail at run time: nothing demanded
-    MayFail { engine_failed: bool },
-    /// SQL does not define a single answer: skipped
-    Ambiguous,
-    Unsupported(String),
-    Violation(String),
-    /// disagreement explained exactly by one confirmed root cause (fixed key)
-    KnownCause { key: &'static str, what: String },
-}
-
-/// Confirmed engine deviations, keyed by root cause (call site).  A
-/// disagreement is attributed to one of them only if the reference evaluated
-/// under that alternative semantics reproduces the engine's rows exactly.
-const CAUSE_SETOP_ALL: &str = "setop-all-multiplicity:LogicalPlanBuilder::intersect_or_except";
-const CAUSE_NOT_IN_CORR: &str = "correlated-not-in-null-aware-anti-join-ignores-filter:HashJoinStream(null_aware)+decorrelate_predicate_subquery::build_join";
-
-fn attribute(ast: &Query, dbv: &Database, got: &[Row]) -> Option<&'static str> {
-    let mut has_all_setop = false;
-    chk_sql::sqlmc::ast::visit_query(
-        ast,
-        &mut |q| {
-            fn look(s: &chk_sql::sqlmc::ast::SetExpr, hit: &mut bool) {
-                use chk_sql::sqlmc::ast::{SetExpr, SetOp};
-                if let SetExpr::SetOp { op, all, left, right } = s {
-                    if *all && matches!(op, SetOp::Intersect | SetOp::Except) {
-                        *hit = true;
-                    }
-                    look(left, hit);
-                    look(right, hit);
-                }
-            }
-            look(&q.body, &mut has_all_setop);
-        },
-        &mut |_| {},
-        &mut |_| {},
-    );
-    let mut has_not_in = false;
-    chk_sql::sqlmc::ast::visit_query(ast, &mut |_| {}, &mut |e| {
-        if matches!(e, chk_sql::sqlmc::ast::Expr::InSubquery { negated: true, .. }) {
-            has_not_in = true;
-        }
-    }, &mut |_| {});
-    if has_not_in {
-        let alt = reference::evaluate_with(dbv, ast, reference::Quirks { not_in_null_check_ignores_correlation: true, ..Default::default() });
-        if let RefOutcome::Rows(r) = alt {
-            if compare(&r, got).is_ok() {
-                return Some(CAUSE_NOT_IN_CORR);
-            }
-        }
-    }
-    if has_all_setop {
-        let alt = reference::evaluate_with(dbv, ast, reference::Quirks { setop_all_as_semijoin: true, ..Default::default() });
-        if let RefOutcome::Rows(r) = alt {
-            if compare(&r, got).is_ok() {
-                return Some(CAUSE_SETOP_ALL);
-            }
-        }
-    }
-    None
-}
-
-fn check_one(sctx: &SessionContext, sql: &str, ast: &Query, dbv: &Database) -> Verdict {
-    let expected = reference::evaluate(dbv, ast);
-    if let RefOutcome::Unsupported(w) = &expected {
-        return Verdict::Unsupported(w.clone());
-    }
-    if let RefOutcome::Ambiguous(_) = &expected {
-        return Verdict::Ambiguous;
-    }
-    let got = engine::run_sql(sctx, sql);
-    match (expected, got) {
-        (RefOutcome::MayFail(_), g) => Verdict::MayFail { engine_failed: g.is_err() },
-        (RefOutcome::Rows(_), Err(e)) if e.starts_with("panic:") => Verdict::Violation(format!("engine panicked: {e}")),
-        (RefOutcome::Rows(r), Err(e)) => Verdict::Violation(format!("engine failed where the reference defines {} row(s): {e}", r.expected_len())),
-        (RefOutcome::Rows(r), Ok(g)) => match compare(&r, &g.rows) {
-            Ok(()) => Verdict::Match { rows: r.window_rows() },
-            Err(w) => match attribute(ast, dbv, &g.rows) {
-                Some(key) => Verdict::KnownCause { key, what: w },
-                None => Verdict::Violation(w),
-            },
-        },
-        _ => unreachable!(),
-    }
 }
 
 fn run_case(c: &Case) -> Result<(), String> {
